@@ -83,8 +83,17 @@ def run_case(ctx, c):
         live.close()
 
 
+@st.composite
+def layout(draw):
+    c = draw(decl.layout_cases())
+    c["routes"] = [draw(st.sampled_from(["ctor", "attrs"])) for _ in c["trees"]]
+    return c
+
+
 def run_shard(shard, ctx):
     run_given(ctx, cases(), lambda c: run_case(ctx, c), 250 if ctx.tier == "quick" else 2500)
+    # every field placed explicitly, declared out of order (holes, position 0 declared last, empty fields, overlaps)
+    run_given(ctx, layout(), lambda c: run_case(ctx, c), 120 if ctx.tier == "quick" else 1200, salt=1)
 
 
 def replay(case, ctx):
